@@ -120,6 +120,13 @@ func concExplore(c *Ctx, id string, scs []*concScenario, boundQuick, boundThorou
 			continue
 		}
 		c.Inc("conc_scenarios_with_reference")
+		if solo[0] == solo[1] {
+			// the two requests look alike when served alone: an interference between them could not be seen
+			c.Inc("conc_scenarios_whose_requests_look_alike_alone")
+			if c.Shard == 0 {
+				c.Note("concurrent scenario %s: both requests have the same view when served alone: %s", sc.Name, clipMid(solo[0], 200))
+			}
+		}
 		stats := explore.Run(explore.Config{MaxCost: bound, Deadline: c.Deadline, Shard: c.Shard, Shards: c.Shards, ShardDepth: 2}, func(x *explore.Exec, own bool) {
 			out, v, berr := concBody(sc, x)
 			if !own {
